@@ -76,6 +76,8 @@ def pytest_configure(config):
             busy[0] = False
     STATE["ctx"] = attach.observe(on_exp=on_exp if "exp" in WANT else None, on_log=on_log if "log" in WANT else None)
     STATE["ctx"].__enter__()
+    if "lm" in WANT:
+        _wrap_lm()
     if "purity" in WANT:
         skip = {"get_version", "import_module", "lru_cache", "retain_ltype", "is_lietensor", "hasnan", "is_SE3"}
         for n in dir(pp):
@@ -87,6 +89,55 @@ def pytest_configure(config):
             if n.startswith("_") or n.endswith("_") or not inspect.isfunction(o) or n in ("new_empty",):
                 continue
             _wrap_pure(pp.LieTensor, n, "LieTensor." + n)
+
+
+def _wrap_lm():
+    """Contract on LevenbergMarquardt.step / GaussNewton.step while the repository's tests drive them (C08):
+    the returned value is optimizer.loss and the loss of the model at the parameters left behind; LM does not return a
+    larger loss than it was given unless the rejections were exhausted; at most reject+1 trials."""
+    import pypose as pp
+    for cls, name in ((pp.optim.LM, "LM"), (pp.optim.GN, "GN")):
+        orig = cls.step
+
+        def step(self, input, target=None, weight=None, _orig=orig, _name=name):
+            with torch.no_grad():
+                before = self.loss.clone() if hasattr(self, "loss") else self.model.loss(input, target)
+            solves = [0]
+            inner = self.solver.forward
+
+            def counting(*a, **kw):
+                solves[0] += 1
+                return inner(*a, **kw)
+            self.solver.forward = counting
+            try:
+                ret = _orig(self, input, target=target, weight=weight)
+            finally:
+                del self.solver.forward
+            try:
+                with torch.no_grad():
+                    now = self.model.loss(input, target)
+                label = f"suite.{_name}.step"
+                test = os.environ.get("PYTEST_CURRENT_TEST", "")
+                CK.count("suite.lm", label, key=(test, STATE["tests"], solves[0]))
+                if not (torch.isfinite(now).all() and torch.isfinite(torch.as_tensor(ret)).all()):
+                    CK.note_add("suite_lm_nonfinite_loss_not_judged", 1)      # LM accepting a NaN loss: consequence of known finding F09
+                    return ret
+                CK.check(torch.equal(torch.as_tensor(ret), torch.as_tensor(self.loss)), "suite.lm", label, f"optim.{_name}.step",
+                         "return_value_is_not_optimizer_loss", {"test": test})
+                scale = float(now.abs()) + 1e-30
+                CK.ratio("suite.lm", label, float((torch.as_tensor(ret) - now).abs()), 1e-4 * scale + 1e-12, f"optim.{_name}.step",
+                         "returned_loss_is_not_the_loss_at_the_parameters_left_behind", {"test": test, "returned": float(ret), "recomputed": float(now)})
+                if _name == "LM":
+                    CK.check(solves[0] <= self.reject + 1, "suite.lm", label, "optim.LM.step", "more_than_reject_plus_one_trials",
+                             {"test": test, "solves": solves[0], "reject": self.reject})
+                    if self.reject_count < self.reject:
+                        CK.check(float(ret) <= float(before) * (1 + 1e-6) + 1e-12, "suite.lm", label, "optim.LM.step",
+                                 "returned_loss_larger_than_loss_at_entry", {"test": test, "returned": float(ret), "entry": float(before)})
+            except Exception as e:  # the observer must never disturb the test
+                CK.note_add("suite_lm_observer_errors", 1)
+            return ret
+        cls.step = step
+        STATE["wrapped"] += 1
 
 
 def pytest_runtest_teardown(item, nextitem):
